@@ -60,6 +60,9 @@ def run(run):
     for ck in check_design(run, E):
         fails += ck.failed
     finish_engine(E, run)
+    # callee contract of the round trip (calc_rdm groups the simulated observations by get_unique_inverse)
+    from contracts.common import discharge_unique_inverse
+    fails += discharge_unique_inverse(run, 'C18')
     finish(run, fails, 'C18')
     run.explanation = ('engine A + z3 lemma: design vectors for all sizes; the numerical claim (exact signal reproduces the model RDM) '
                        'depends on LDL / Cholesky / norm.ppf and random draws and is decided by the bounded tier only')
